@@ -268,11 +268,76 @@ def diffusion_order_pair():
     return ("diffusion profiles, solute order", ev)
 
 
+class _OrderedEq:
+    """scripted single-phase equilibrium of a system WITH an interstitial element, behaving like pycalphad: whatever order the user
+    lists the elements in, composition sets and chemical potentials come back in alphabetical order"""
+    def __init__(self, elements):
+        self.elements = list(elements) + ["VA"]          # user order, dependent element first
+        self.numElements = len(elements)
+        self.phases = ["FCC"]
+        self.mobility_correction = None
+        self._alpha = sorted(elements)
+        base = {"FE": 1e-17, "MN": 3e-17, "CR": 2e-17, "C": 8e-14, "N": 5e-14}
+        self.mobCallables = {"FCC": {el: (lambda dof, el=el, b=base[el]: b * (1.0 + 2.0 * self._x.get("C", self._x.get("N", 0.0)))) for el in elements}}
+        self._x = {}
+
+    def clearCache(self):
+        pass
+
+    def getEq(self, x, T, gExtra=0, phases=None):
+        from .homog_drv import _CS, _Wks
+        xs = np.atleast_1d(np.asarray(x, dtype=float))
+        full = {el: float(v) for el, v in zip(self.elements[1:-1], xs)}
+        full[self.elements[0]] = 1.0 - sum(full.values())
+        self._x = full
+        X = np.array([full[el] for el in self._alpha])
+        MU = [1000.0 * (i + 1) + 8.314 * float(T) * np.log(max(full[el], 1e-12)) for i, el in enumerate(self._alpha)]
+        return _Wks([_CS("FCC", self._alpha, 1.0, X, None)], [MU])
+
+
+def interstitial_order_pairs():
+    """Fe-Mn-C and Fe-Cr-N (scripted): mobilities, chemical potentials and a short homogenization run with the solutes listed in both
+    orders; the interstitial element sits at another index in the user's list than alphabetically in one of the two"""
+    from kawin.diffusion.DiffusionParameters import computeMobility
+    from kawin.diffusion import HomogenizationModel
+    from kawin.solver.Solver import SolverType
+    out = []
+    for base in (["FE", "MN", "C"], ["FE", "CR", "N"]):
+        other = [base[0], base[2], base[1]]
+        ev = [{"e": "init", "allowed": []}]
+        try:
+            comp = {base[1]: 0.12, base[2]: 0.03}
+            res = {}
+            for order in (base, other):
+                t = _OrderedEq(order)
+                x = np.array([[comp[e] for e in order[1:]], [comp[e] * 0.5 for e in order[1:]]])
+                md = computeMobility(t, x, 1200.0)
+                mob = np.array(md.mobility)[:, 0, :]          # (points, elements in the user's order)
+                mu = np.array(md.chemical_potentials)
+                res[tuple(order)] = ({e: mob[:, i] for i, e in enumerate(order)}, {e: mu[:, i] for i, e in enumerate(order)})
+                m = HomogenizationModel([0.0, 1e-4], 8, order, ["FCC"], thermodynamics=_OrderedEq(order))
+                m.setTemperature(1200.0)
+                m.setCompositionStep(0.05, 0.15, 0.5e-4, base[1])
+                m.setCompositionStep(0.04, 0.01, 0.5e-4, base[2])
+                m.solve(200.0, solverType=SolverType.EXPLICITEULER, maxDtFrac=0.1)
+                res[tuple(order)] += ({e: np.array(m.getX(e)) for e in order}, np.array(m._recordedTime) if getattr(m, "_recordedTime", None) is not None else np.array([m.t]))
+            A, B = res[tuple(base)], res[tuple(other)]
+            for e in base:
+                ev.append({"e": "cmp", "name": "mobility[%s]" % e, "c": vcmp(A[0][e], B[0][e], 1e-9)})
+                ev.append({"e": "cmp", "name": "chemicalPotential[%s]" % e, "c": vcmp(A[1][e], B[1][e], 1e-9)})
+                ev.append({"e": "cmp", "name": "profile[%s]" % e, "c": vcmp(A[2][e], B[2][e], 1e-9)})
+            ev.append({"e": "cmp", "name": "finalTime", "c": vcmp(A[3][-1:], B[3][-1:], 1e-12)})
+        except Exception as ex:  # noqa
+            ev.append({"e": "exception", "msg": "%s: %s" % (type(ex).__name__, str(ex)[:200])})
+        out.append(("interstitial system %s vs %s (scripted)" % (base, other), ev))
+    return out
+
+
 def element_order_part(ctx):
     """called by the C11 check"""
     from . import traces as T
     from .tlc import MachineryError
-    pairs = element_order_pairs(ctx.tier) + [diffusion_order_pair()]
+    pairs = element_order_pairs(ctx.tier) + [diffusion_order_pair()] + interstitial_order_pairs()
     traces = [ev for (_, ev) in pairs]
     reached, res = T.validate("Equiv", [], traces, "c11_elements")
     ctx.add_tlc(res, "Equiv over %d element-order pairs (real Ni-Cr-Al database)" % len(traces))
